@@ -52,7 +52,8 @@ TAGBYTES = [0x62, 0x74, 0x73, 0x49, 0x6c, 0x6262, 0x7373, 0x4949,
 
 
 def value_tasks(tier):
-    out = [('scalars',), ('keys',), ('deep',), ('onehot',), ('mixed',)]
+    out = [('scalars',), ('keys',), ('deep',), ('onehot',), ('mixed',),
+           ('shared',)]
     # every nesting depth: up to 32 acceptance is required, beyond it
     # whatever is accepted must still round-trip (and equal the reference)
     out += [('depths', 1, 17), ('depths', 17, 33), ('depths', 33, 80),
@@ -156,6 +157,18 @@ def values(task, tier, seed=0):
     elif kind == 'chains':
         for v in A.chains(task[1]):
             yield v
+    elif kind == 'shared':
+        # the same list / dict / bytearray OBJECT at several non-ancestor
+        # positions of one value (a DAG, not a cycle)
+        for leaf in ([1, 'x'], {'k': 1}, [[2]], {'n': {'m': [3]}},
+                     bytearray(b'ab'), [], {}):
+            yield [leaf, leaf]
+            yield {'a': leaf, 'b': leaf}
+            yield {'l': {'x': leaf}, 'r': {'x': leaf}}
+            yield [leaf, [leaf], {'k': leaf}, leaf]
+            yield {'a': [leaf, leaf], 'b': {'c': leaf}, 'z': leaf}
+            mid = {'inner': leaf, 'again': leaf}
+            yield {'m1': mid, 'm2': mid, 'list': [mid, mid]}
     elif kind == 'mixed':
         yield list(A.SCALARS)
         yield {'k%03d' % i: s for i, s in enumerate(A.SCALARS)}
